@@ -194,6 +194,9 @@ class BSplines():
                 a, b = self.domain
                 x = np.around(x, decimals=15)
                 x = (x-a) % (b-a) + a
+                # a point which lies below a by a rounding error is wrapped
+                # to b : it is the point a
+                x[b-x < 1e-14*(b-a)] = a
 
             return np.around(x, decimals=15)
 
